@@ -15,8 +15,11 @@ func genL2WCase(r *sim.Rng, tier string, tail bool) *WCase {
 	want := 4096
 	big := false
 	switch {
-	case tier == "thorough" && r.Chance(1, 300):
+	case hugeProfile(r, tier, 300):
 		want = r.Range(2<<20, 5<<20)
+		if tier != "thorough" {
+			want = r.Range(2200<<10, 2600<<10)
+		}
 		big = true
 	case r.Chance(1, 10):
 		want = 300 << 10
@@ -28,11 +31,9 @@ func genL2WCase(r *sim.Rng, tier string, tail bool) *WCase {
 	max := maxPayloadFor(cfg.Matcher, 0, cfg.DictCap, want)
 	pl := sim.GenPayload(r, max)
 	if want > 1<<20 {
-		pl = sim.Payload{Kind: "concat", Parts: []sim.Payload{
-			{Kind: "zeros", N: max / 2},
-			{Kind: "prng", N: max / 4, Seed: r.Uint64()},
-			{Kind: "text", N: max / 4, Seed: r.Uint64()},
-		}}
+		pl = hugePayload(r, tier, max)
+	} else if cfg.Matcher == 1 && want > 16<<10 && r.Chance(1, 3) {
+		pl = btLongPayload(r, want)
 	} else if r.Chance(1, 4) && max >= 70000 {
 		// incompressible segment then compressible: raw chunk, then state restore
 		pl = sim.Payload{Kind: "concat", Parts: []sim.Payload{
